@@ -1718,7 +1718,21 @@ def plane_cylinder_report(n, pp, c, a, Rc, h, dists, poss, what, degenerate_ok=T
 def goal_plane_cylinder(spec, pre, post):
   n, pp = _f32(_argv(spec, "plane_normal")), _f32(_argv(spec, "plane_pos"))
   c, a, Rc, h = _f32(_argv(spec, "cylinder_center")), _f32(_argv(spec, "cylinder_axis")), float(_f32(_argv(spec, "cylinder_radius"))), float(_f32(_argv(spec, "cylinder_half_height")))
-  msgs = plane_cylinder_report(n, pp, c, a, Rc, h, [float(x) for x in post["dist_out"][:4]], [post["pos_out"][i].astype(np.float64) for i in range(4)], "plane_cylinder")
+  dists = [float(x) for x in post["dist_out"][:4]]
+  poss = [post["pos_out"][i].astype(np.float64) for i in range(4)]
+  msgs = plane_cylinder_report(n, pp, c, a, Rc, h, dists, poss, "plane_cylinder")
+  # order of the four contacts: 1 = lowest point (cap facing the plane), 2 = same direction on the far cap, 3 / 4 on the near cap
+  na = float(n @ a)
+  scale = 1 + np.abs(c - pp).max() + Rc + h
+  low = float(n @ (c - pp)) - h * abs(na) - Rc * _math.sqrt(max(0.0, 1 - na * na))
+  if abs(dists[0] - low) > TOL * scale:
+    msgs.append(f"plane_cylinder: contact 1 (dist {dists[0]}) is not the lowest point of the cylinder ({low})")
+  if abs(na) > 1e-3:
+    near = -1.0 if na > 0 else 1.0  # sign of the axial coordinate of the cap facing the plane
+    for i, want in ((0, near), (1, -near), (2, near), (3, near)):
+      ax = float((poss[i] + n * dists[i] / 2 - c) @ a)
+      if ax * want < 0:
+        msgs.append(f"plane_cylinder: contact {i + 1} is on the {'far' if want == near else 'near'} cap (axial coordinate {ax})")
   if np.abs(post["normal_out"][0].astype(np.float64) - n).max() > TOL:
     msgs.append("normal is not the plane normal")
   return (not msgs), "; ".join(msgs[:3]) or "plane_cylinder ok"
@@ -1749,6 +1763,7 @@ def _unit_plane_cylinder(ctx, regime):
   gi = _CylInterp(abstract_dot=True)
   kt, gi = run_wrapper("k_plane_cylinder", {"dist_out": [4], "pos_out": [4], "normal_out": [1]}, interp=gi, divmode="poly")
   n, pp, c, a = vec_arg(kt, "plane_normal"), vec_arg(kt, "plane_pos"), vec_arg(kt, "cylinder_center"), vec_arg(kt, "cylinder_axis")
+  xax = vec_arg(kt, "cylinder_xaxis")
   Rc, h = R(kt.args["cylinder_radius"]), R(kt.args["cylinder_half_height"])
   dist = [R(kt.post("dist_out", i)) for i in range(4)]
   pos = [out_vec(kt, "pos_out", i, 3) for i in range(4)]
@@ -1762,17 +1777,19 @@ def _unit_plane_cylinder(ctx, regime):
   sq = [z3.Real(nm) for nm in sorted(allv) if nm.startswith("sqrt!")]
   dv = [z3.Real(nm) for nm in sorted(allv) if nm.startswith("div!")]
   xn, Lx, u = gi.norms[0]
-  pre = [dot(n, n) == 1, dot(a, a) == 1, Rc > 0, h > 0]
+  pre = [dot(n, n) == 1, dot(a, a) == 1, Rc > 0, h > 0, dot(xax, xax) == 1, dot(xax, a) == 0]
   NA, D0, LEN = z3.Reals("ref_n_dot_a ref_dist0 ref_len")
   defs = [NA == dot(n, a), D0 == dot(sub(c, pp), n), LEN >= 0, LEN * LEN == 1 - NA * NA]
   names = {"n_dot_axis": NA, "len_projected": LEN, "radius": Rc, "half_height": h, "n0": n[0], "n1": n[1], "n2": n[2], "axis0": a[0], "axis1": a[1], "axis2": a[2]}
+  inputs_all = n + pp + c + a + xax
 
-  def pin(nv, av, cv=(0, 0, 1), Rv="1/2", hv="1"):
-    return z3.And(pin_vec(n, nv), pin_vec(a, av), pin_vec(c, cv), pin_vec(pp, (0, 0, 0)), Rc == Q(Rv), h == Q(hv))
+  def pin(nv, av, xv, cv=(0, 0, 1), Rv="1/2", hv="1"):
+    return z3.And(pin_vec(n, nv), pin_vec(a, av), pin_vec(xax, xv), pin_vec(c, cv), pin_vec(pp, (0, 0, 0)), Rc == Q(Rv), h == Q(hv))
 
-  N2 = ("2/7", "3/7", "6/7")
-  pins = [pin((0, 0, 1), (1, 0, 0)), pin((0, 0, 1), ("3/5", 0, "4/5")), pin((0, 0, 1), ("3/5", 0, "-4/5")), pin(N2, ("3/7", "-6/7", "2/7")), pin(("3/5", 0, "4/5"), (0, 1, 0)), pin(("3/5", 0, "4/5"), (0, 0, 1)), pin(("3/5", 0, "4/5"), (0, 0, -1)),
-          pin((0, 0, 1), (0, 0, 1)), pin((0, 0, 1), (0, 0, -1)), pin(N2, N2), pin(("3/5", 0, "4/5"), ("3/5", 0, "4/5")), pin(("3/5", "4/5", 0), ("-3/5", "-4/5", 0))]
+  N2, N3 = ("2/7", "3/7", "6/7"), ("3/7", "-6/7", "2/7")
+  E1, E2 = (1, 0, 0), (0, 1, 0)
+  pins = [pin((0, 0, 1), E1, E2), pin((0, 0, 1), ("3/5", 0, "4/5"), E2), pin((0, 0, 1), ("3/5", 0, "-4/5"), E2), pin(N2, N3, N2), pin(("3/5", 0, "4/5"), E2, E1), pin(("3/5", 0, "4/5"), (0, 0, 1), E1), pin(("3/5", 0, "4/5"), (0, 0, -1), E2),
+          pin((0, 0, 1), (0, 0, 1), E1), pin((0, 0, 1), (0, 0, -1), E2), pin(N2, N2, N3), pin(("3/5", 0, "4/5"), ("3/5", 0, "4/5"), E2), pin(("3/5", 0, "4/5"), ("-3/5", 0, "-4/5"), ("4/5", 0, "-3/5")), pin(("3/5", "4/5", 0), ("-3/5", "-4/5", 0), (0, 0, 1))]
   base = kt.bg + pre + defs
   nondeg = LEN * LEN >= Q("1/1000000000000")
   cases = [("axis-away", z3.And(nondeg, NA <= 0), 1), ("axis-towards", z3.And(nondeg, NA > 0), -1)] if regime == "nondegenerate" else [("degenerate/axis-away", z3.And(z3.Not(nondeg), NA <= 0), 1), ("degenerate/axis-towards", z3.And(z3.Not(nondeg), NA > 0), -1)]
@@ -1798,7 +1815,7 @@ def _unit_plane_cylinder(ctx, regime):
     for sv in sq:
       P.lemma(f"{sv}=len", sv == LEN, using=["len2", defs[2], defs[3]] + facts_sqrt)
     sqn = [f"{sv}=len" for sv in sq]
-    inputs = free_vars(z3.And(*[t == 0 for t in n + pp + c + a]))
+    inputs = free_vars(z3.And(*[t == 0 for t in inputs_all]))
     scalar_facts = [f for f in (core.zbool(t) for t in kt.bg) if not (free_vars(f) & inputs)]
     Q_ = [add(pos[i], scl(n, dist[i] / 2)) for i in range(4)]  # claimed surface points
     cap = [add(c, scl(ap, h)), sub(c, scl(ap, h)), add(c, scl(ap, h)), add(c, scl(ap, h))]  # centre of the cap each contact belongs to
@@ -1824,10 +1841,14 @@ def _unit_plane_cylinder(ctx, regime):
       P.lemma("|vec|^2*len^2", VV * LEN * LEN == Rc * Rc * dot(v0, v0), using=["vec*len", "def:vec_vec"])
       P.lemma("|vec|=R", VV == Rc * Rc, using=["|vec|^2*len^2", "|v0|^2=len^2", "len>0"])
     else:
-      P.lemma("vec", veq(vc, [Rc, 0, 0]), using=["len2", cond])
+      # axis parallel to the plane normal: the radial direction is the cylinder's own x-axis (unit, perpendicular to the axis)
+      P.lemma("vec", veq(vc, scl(xax, Rc)), using=["len2", cond])
       VAP, VN, VV = P.name("vec_ap", dot(vc, ap)), P.name("vec_n", dot(vc, n)), P.name("vec_vec", dot(vc, vc))
-      P.lemma("|vec|=R", VV == Rc * Rc, using=["vec", "def:vec_vec"])
-      P.lemma("vec.ap", VAP == Rc * sg * a[0], using=["vec", "def:vec_ap"])
+      XX_, XA_ = P.name("xax_xax", dot(xax, xax)), P.name("xax_a", dot(xax, a))
+      P.lemma("|vec|^2-expand", VV == Rc * Rc * XX_, using=["vec", "def:vec_vec", "def:xax_xax"])
+      P.lemma("|vec|=R", VV == Rc * Rc, using=["|vec|^2-expand", "def:xax_xax", pre[4]])
+      P.lemma("vec.ap-expand", VAP == Rc * sg * XA_, using=["vec", "def:vec_ap", "def:xax_a"])
+      P.lemma("vec.ap=0", VAP == 0, using=["vec.ap-expand", "def:xax_a", pre[5]])
     P.lemma("prjvec-arg", z3.And(veq(gi.dots[3][0], vc), veq(gi.dots[3][1], n)))
     P.lemma("prjvec", d_prjvec == VN, using=["prjvec-arg", d_prjvec == dot(gi.dots[3][0], gi.dots[3][1]), "def:vec_n"])
     # contacts 1, 2: rim points of the two caps in the radial direction vec
@@ -1840,9 +1861,10 @@ def _unit_plane_cylinder(ctx, regime):
       rad = sub(Q_[i], cap[i])
       P.lemma(f"rad{i + 1}", veq(rad, vc), using=[f"Q{i + 1}"])
       P.lemma(f"rad{i + 1}-dots", z3.And(dot(rad, ap) == VAP, dot(rad, rad) == VV), using=[f"rad{i + 1}", "def:vec_ap", "def:vec_vec"])
-      P.goal(f"contact{i + 1}/on-rim", z3.And(dot(rad, ap) == 0, dot(rad, rad) == Rc * Rc), using=[f"rad{i + 1}-dots", "vec.ap=0" if regime == "nondegenerate" else "vec.ap", "|vec|=R"], desc=f"plane_cylinder: contact {i + 1} is not on the rim of its cap (radial vector not perpendicular to the axis or not of length radius)")
+      P.goal(f"contact{i + 1}/on-rim", z3.And(dot(rad, ap) == 0, dot(rad, rad) == Rc * Rc), using=[f"rad{i + 1}-dots", "vec.ap=0", "|vec|=R"], desc=f"plane_cylinder: contact {i + 1} is not on the rim of its cap (radial vector not perpendicular to the axis or not of length radius)")
     if regime == "nondegenerate":
       P.goal("contact1/lowest-point", dist[0] == D0 + h * PR - Rc * LEN, using=["dist1-code", "vec.n"], desc="plane_cylinder: contact 1 is not the lowest point of the cylinder: n.(c - p) - h |n.a| - R sqrt(1 - (n.a)^2)")
+    if True:
       # contacts 3, 4: on the lower rim, 120 degrees on either side of contact 1
       v1 = scl(u, Rc * S3 / 2)
       xa = cross(vc, scl(ap, h))
@@ -1867,19 +1889,21 @@ def _unit_plane_cylinder(ctx, regime):
       P.lemma("u.vec=0", UV == 0, using=["u.vec*Lx", "cross.vec", "Lx>0"])
       P.lemma("u.ap*Lx", UA * Lx == dot(xa, ap), using=["u*Lx", "def:u_ap"])
       P.lemma("u.ap=0", UA == 0, using=["u.ap*Lx", "cross.ap", "Lx>0"])
-      # (vec x ap).n * len = R ((ap PR - n) x ap).n = -R (n x ap).n = 0
-      xl = cross(scl(v0, Rc), scl(ap, h))
-      P.lemma("cross0.n", dot(xl, n) == 0, using=[])
-      P.lemma("cross*len", veq(scl(xa, LEN), xl), using=["vec*len"])
-      P.lemma("u.n*Lx*len", UN * Lx * LEN == dot(xl, n), using=["u*Lx", "cross*len", "def:u_n"])
-      P.lemma("u.n=0", UN == 0, using=["u.n*Lx*len", "cross0.n", "Lx>0", "len>0"])
+      if regime == "nondegenerate":
+        # (vec x ap).n * len = R ((ap PR - n) x ap).n = -R (n x ap).n = 0
+        xl = cross(scl(v0, Rc), scl(ap, h))
+        P.lemma("cross0.n", dot(xl, n) == 0, using=[])
+        P.lemma("cross*len", veq(scl(xa, LEN), xl), using=["vec*len"])
+        P.lemma("u.n*Lx*len", UN * Lx * LEN == dot(xl, n), using=["u*Lx", "cross*len", "def:u_n"])
+        P.lemma("u.n=0", UN == 0, using=["u.n*Lx*len", "cross0.n", "Lx>0", "len>0"])
       for i, sgn1 in ((2, 1), (3, -1)):
         pt = add(sub(add(c, scl(v1, sgn1)), scl(vc, Q("1/2"))), scl(ap, h))
         P.goal(f"contact{i + 1}/point", veq(Q_[i], pt), desc=f"plane_cylinder: contact {i + 1} is not centre {'+' if sgn1 > 0 else '-'} side vector - radial vector / 2 + half height * axis")
         P.lemma(f"Q{i + 1}", veq(Q_[i], pt))
         P.lemma(f"Q{i + 1}.n", dot(n, sub(Q_[i], pp)) == D0 + sgn1 * Rc * S3 / 2 * UN - VN / 2 + h * PR, using=[f"Q{i + 1}", "def:u_n", "def:vec_n", defs[0], defs[1]])
         P.lemma(f"dist{i + 1}-code", dist[i] == D0 + h * PR - VN / 2, using=["dist0", "na", "prjvec", cond])
-        P.goal(f"contact{i + 1}/dist", dist[i] == dot(n, sub(Q_[i], pp)), using=[f"Q{i + 1}.n", f"dist{i + 1}-code", "u.n=0"], desc=f"plane_cylinder: dist[{i}] is not the signed distance of the claimed surface point to the plane")
+        if regime == "nondegenerate":  # (axis parallel to n: the side vector is perpendicular to n only up to the 1e-6 tolerance of the branch)
+          P.goal(f"contact{i + 1}/dist", dist[i] == dot(n, sub(Q_[i], pp)), using=[f"Q{i + 1}.n", f"dist{i + 1}-code", "u.n=0"], desc=f"plane_cylinder: dist[{i}] is not the signed distance of the claimed surface point to the plane")
         rad = sub(Q_[i], cap[i])
         P.lemma(f"rad{i + 1}", veq(rad, sub(scl(v1, sgn1), scl(vc, Q("1/2")))), using=[f"Q{i + 1}"])
         P.lemma(f"rad{i + 1}-dots", z3.And(dot(rad, rad) == Rc * Rc * S3 * S3 / 4 * UU - sgn1 * Rc * S3 / 2 * UV + VV / 4, dot(rad, ap) == sgn1 * Rc * S3 / 2 * UA - VAP / 2), using=[f"rad{i + 1}", "def:u_u", "def:u_vec", "def:vec_vec", "def:u_ap", "def:vec_ap"])
